@@ -20,7 +20,7 @@ BOUNDS = {"quick": "operation kinds: Fock Creation / Annihilation / PhaseShift /
 OPTS = {"quick": {"max_paths": 96, "timeout_ms": 10000, "case_timeout_s": 900},
         "thorough": {"max_paths": 192, "timeout_ms": 30000, "case_timeout_s": 1800}}
 
-KINDS = ["fock.DisplaceConcrete", "comp.ExprFF", "comp.ExprF1c", "comp.ExprFFc", "fock.Creation", "fock.Annihilation", "fock.PhaseShift", "fock.Custom", "fock.Expresion", "pol.RX", "pol.CustomNumpy",
+KINDS = ["fock.DisplaceConcrete", "comp.ExprFF", "comp.ExprF1c", "comp.ExprFFc", "custom.ExprNumpyAdd", "fock.Creation", "fock.Annihilation", "fock.PhaseShift", "fock.Custom", "fock.Expresion", "pol.RX", "pol.CustomNumpy",
          "custom.Custom", "comp.CX", "comp.ExprPC", "comp.ExprCP"]
 INTERLEAVE = ["none", "construct-sibling", "apply-sibling"]
 
@@ -116,6 +116,21 @@ def _make(B, kind, tag, W):
         Mj = B.jnp.asarray(M) if B.mode == "sym" else B.jnp.array(M)
         # the library requires a jax array for the operator; the user keeps M (numpy) and passes a view of it
         return Operation(PolarizationOperationType.Custom, operator=Mj), (lambda d: B.np(M).copy()), True, user, 0
+    if kind == "custom.ExprNumpyAdd":
+        # an expression whose leaves are numpy arrays OWNED BY THE USER (returned by the context callables): the operation
+        # must not write into them, however often its operator is rebuilt
+        import numpy as np
+        k = 1.0 if not tag else 0.5
+        H1 = np.array([[0.3, 0.2 - 0.1j], [0.2 + 0.1j, -0.4]]) * k
+        H2 = np.array([[0.1, 0.5j], [-0.5j, 0.25]]) * k
+        user.append((H1, H1.copy()))
+        user.append((H2, H2.copy()))
+        import jax.scipy.linalg as jsl  # (the shim's numeric expm in the symbolic run: the same rationals the library gets)
+
+        U = B.np(jsl.expm(B.jnp.array(-1j * (H1.copy() + H2.copy()))))
+        op = Operation(CustomStateOperationType.Expresion, expr=("expm", ("s_mult", -1j, ("add", "h1", "h2"))),
+                       context={"h1": lambda dims: H1, "h2": lambda dims: H2})
+        return op, (lambda d: U), True, user, 0
     if kind == "custom.Custom":
         M = B.operator("O" + tag, 2)
         return Operation(CustomStateOperationType.Custom, operator=M), (lambda d: B.np(M)), True, user, 0
